@@ -21,7 +21,10 @@
 //            K<n>           (first statement only) the case runs with the class compiled with
 //                           DUNE_PARALLEL_MAX_COMMUNICATION_BUFFER_SIZE=<n> (the other set of default constructors)
 //            N<s><k><m>[b]  slot s = new object, constructor k in m|i (with buffer size b) M|I (default buffer size),
-//                           interface map m: r the case's map, d a decoy (self interface 0 -> 0 only)
+//                           interface map m: r the case's map, d a decoy (self interface 0 -> 0 only), both with
+//                           MPI_COMM_WORLD as the user's communicator; x, y the same two maps on a communicator with
+//                           the reversed rank order (process w of MPI_COMM_WORLD is rank P-1-w there and plays that
+//                           rank of the case in every call made on an object that descends from it)
 //            C<s><t>        slot s = copy-constructed from slot t        A<s><t>  slot s = slot t (s==t: self-assignment)
 //            D<s>           slot s destroyed
 //            X<s>           the next call of `dirs` is made on slot s (needs the case's map and a buffer >= B there)
@@ -44,7 +47,7 @@
 // without a message and no message without a receive (point-to-point operations started by the call are counted through
 // the MPI profiling interface); returning at all is checked by the per-case alarm().  Which map and buffer size an
 // object is supposed to have after a history is computed here by value semantics (a copy / an assignment takes over the
-// map and the buffer size of its source).
+// map, the buffer size and the process group of its source).
 #include <config.h>
 
 #include <mpi.h>
@@ -82,6 +85,7 @@ static const Family& mainFamily() {
 }
 
 static int g_rank = 0, g_size = 1;
+static MPI_Comm g_revComm = MPI_COMM_NULL;  // all processes, rank order reversed
 
 // ---------------------------------------------------------------------------------------------------------------
 // point-to-point operations started while a communicate call runs (profiling interface; pmpi_sched.cc owns the
@@ -129,7 +133,8 @@ struct Stmt {
 struct SlotCfg {  // what an object is supposed to be configured with (value semantics)
   bool alive = false;
   long B = 0;
-  char map = 'r';
+  char map = 'r';    // r the case's map, d the decoy
+  bool rev = false;  // its communicator descends from the reversed one
 };
 
 struct Case {
@@ -195,7 +200,8 @@ static bool lifeStep(const Case& c, std::vector<SlotCfg>& sl, const Stmt& st, si
       if (alive(st.s)) { why = "N into a used slot"; return false; }
       sl[st.s].alive = true;
       sl[st.s].B = (st.kind == 'M' || st.kind == 'I') ? c.defaultBuffer() : st.b;
-      sl[st.s].map = st.map;
+      sl[st.s].map = (st.map == 'r' || st.map == 'x') ? 'r' : 'd';
+      sl[st.s].rev = st.map == 'x' || st.map == 'y';
       return true;
     case 'C':
       if (alive(st.s) || !alive(st.t)) { why = "C"; return false; }
@@ -244,7 +250,7 @@ static void parseLife(Case& c) {
       if (t.size() < 4 || !slot(t[1], st.s)) { c.err = "N"; return; }
       st.kind = t[2];
       st.map = t[3];
-      if (std::string("mMiI").find(st.kind) == std::string::npos || (st.map != 'r' && st.map != 'd')) { c.err = "N kind/map"; return; }
+      if (std::string("mMiI").find(st.kind) == std::string::npos || std::string("rdxy").find(st.map) == std::string::npos) { c.err = "N kind/map"; return; }
       bool sized = st.kind == 'm' || st.kind == 'i';
       if (sized) { if (!parseNumber(t.substr(4), st.b) || st.b < 1) { c.err = "N size"; return; } }
       else if (t.size() != 4) { c.err = "N default with size"; return; }
@@ -370,10 +376,9 @@ static void fillMap(const View& v, int me, IMap& imap) {
 
 // one forward()/backward() on `comm`, which is supposed to work on the interface map `view`: canonical form of what was
 // scattered (appended to *out if given) and the oracles; returns the first complaint ("" = none)
-static std::string checkedCall(CommApi& comm, const View& view, bool fwd, bool fx, char ty, long cap, long bufferOfObject,
-                               const std::function<long(int, long)>& sz, const std::string& what, std::string* out,
-                               bool& nontrivial) {
-  const int me = g_rank;
+static std::string checkedCall(CommApi& comm, const View& view, int me, MPI_Comm userComm, bool fwd, bool fx, char ty, long cap,
+                               long bufferOfObject, const std::function<long(int, long)>& sz, const std::string& what,
+                               std::string* out, bool& nontrivial) {
   std::string fail;
   Recorder h;
   h.rank = me;
@@ -386,12 +391,13 @@ static std::string checkedCall(CommApi& comm, const View& view, bool fwd, bool f
   bool built = comm.communicate(ty, fwd, h);
   g_counting = false;
   if (!built) return "harness: item type '" + std::string(1, ty) + "' is not built for this configuration";
+  if (h.damaged) fail = what + ": an item arrived damaged (payload check of the item type '" + std::string(1, ty) + "' failed)";
 
   // ---- canonical form: scatter calls with data, grouped by the rank the data came from ----
   std::map<int, std::vector<const ScatterCall*>> bySrc;
   for (auto& sc : h.scattered) {
     if (sc.n == 0 && sc.items.empty()) {
-      if (me == 0) stat("scatter_calls_with_count_0_on_rank0");
+      if (g_rank == 0) stat("scatter_calls_with_count_0_on_rank0");
       // legal only for an index that expects no data from at least one neighbour
       bool okz = false;
       for (int q : view.present[me]) {
@@ -428,7 +434,6 @@ static std::string checkedCall(CommApi& comm, const View& view, bool fwd, bool f
 
   // ---- oracle: delivery ----
   if (!h.problem.empty() && fail.empty()) fail = h.problem;
-  if (h.damaged && fail.empty()) fail = "an item arrived damaged (payload check of the item type '" + std::string(1, ty) + "' failed)";
   for (auto& kv : bySrc)
     if (!view.present[me].count(kv.first) && fail.empty())
       fail = "data attributed to rank " + std::to_string(kv.first) + " which is no neighbour";
@@ -477,9 +482,9 @@ static std::string checkedCall(CommApi& comm, const View& view, bool fwd, bool f
     std::vector<long> sentTo(g_size, 0), sentToMe(g_size, 0), postedFor(g_size, 0);
     for (auto& kv : g_sends) if (bucket(kv.first.second) == bk && kv.first.first >= 0 && kv.first.first < g_size) sentTo[kv.first.first] += kv.second;
     for (auto& kv : g_recvs) if (bucket(kv.first.second) == bk && kv.first.first >= 0 && kv.first.first < g_size) postedFor[kv.first.first] += kv.second;
-    MPI_Alltoall(sentTo.data(), 1, MPI_LONG, sentToMe.data(), 1, MPI_LONG, MPI_COMM_WORLD);
+    MPI_Alltoall(sentTo.data(), 1, MPI_LONG, sentToMe.data(), 1, MPI_LONG, userComm);  // ranks as the object numbers them
     for (int q = 0; q < g_size; ++q) {
-      if (me == 0 && bk == 0 && sentTo[q] > 0 && out)
+      if (g_rank == 0 && bk == 0 && sentTo[q] > 0 && out)
         stat(sentTo[q] == 1 ? "msgs_to_a_neighbour_1" : sentTo[q] <= 3 ? "msgs_to_a_neighbour_2_3" : "msgs_to_a_neighbour_4plus");
       std::string where = what + ", " + bucketName[bk] + ": ";
       if (postedFor[q] > sentToMe[q] && fail.empty())
@@ -490,20 +495,21 @@ static std::string checkedCall(CommApi& comm, const View& view, bool fwd, bool f
   }
   // a message longer than the configured buffer is not a delivery failure (a communicator that silently works with a
   // bigger buffer still delivers everything), so it is only counted; an overrun of the real buffer is ASan's business
-  if (g_maxMsgItems > bufferOfObject && me == 0) stat("calls_with_a_message_longer_than_the_configured_buffer");
+  if (g_maxMsgItems > bufferOfObject && g_rank == 0) stat("calls_with_a_message_longer_than_the_configured_buffer");
   g_maxMsgItems = 0;
   return fail;
 }
 
 static Result runCase(const Case& c, const Family& fam) {
-  const int me = g_rank;
+  // the rank this process plays in a call on an object whose communicator descends from MPI_COMM_WORLD / the reversed one
+  const int meOf[2] = {g_rank, g_size - 1 - g_rank};
+  const MPI_Comm userComm[2] = {MPI_COMM_WORLD, g_revComm};
   Result res;
   std::string out, fail;
   bool nontrivial = false;
   {
-    IMap realMap, decoyMap;
-    fillMap(c.real, me, realMap);
-    fillMap(c.decoy, me, decoyMap);
+    IMap realMap[2], decoyMap[2];
+    for (int r = 0; r < 2; ++r) { fillMap(c.real, meOf[r], realMap[r]); fillMap(c.decoy, meOf[r], decoyMap[r]); }
     std::vector<std::unique_ptr<OpenInterface>> ifaces;  // the maps have to outlive every object pointing to them
     std::unique_ptr<CommApi> slot[10];
     std::vector<SlotCfg> cfg(10);
@@ -514,15 +520,16 @@ static Result runCase(const Case& c, const Family& fam) {
       lifeStep(c, cfg, st, dummy, why);  // the configuration the objects are supposed to have (valid: checked by parseCase)
       switch (st.op) {
         case 'N': {
-          const View& v = st.map == 'r' ? c.real : c.decoy;
+          const bool real = cfg[st.s].map == 'r';
+          const int r = cfg[st.s].rev ? 1 : 0;
           if (st.kind == 'i' || st.kind == 'I') {
-            ifaces.emplace_back(new OpenInterface(MPI_COMM_WORLD));
-            fillMap(v, me, ifaces.back()->interfaces());
-            slot[st.s].reset(fam.make(st.kind == 'i' ? CtorKind::interfaceSize : CtorKind::interface, MPI_COMM_WORLD, nullptr,
+            ifaces.emplace_back(new OpenInterface(userComm[r]));
+            fillMap(real ? c.real : c.decoy, meOf[r], ifaces.back()->interfaces());
+            slot[st.s].reset(fam.make(st.kind == 'i' ? CtorKind::interfaceSize : CtorKind::interface, userComm[r], nullptr,
                                       ifaces.back().get(), (std::size_t)st.b));
           } else {
-            slot[st.s].reset(fam.make(st.kind == 'm' ? CtorKind::commMapSize : CtorKind::commMap, MPI_COMM_WORLD,
-                                      st.map == 'r' ? &realMap : &decoyMap, nullptr, (std::size_t)st.b));
+            slot[st.s].reset(fam.make(st.kind == 'm' ? CtorKind::commMapSize : CtorKind::commMap, userComm[r],
+                                      real ? &realMap[r] : &decoyMap[r], nullptr, (std::size_t)st.b));
           }
           break;
         }
@@ -532,8 +539,9 @@ static Result runCase(const Case& c, const Family& fam) {
         case 'U': {
           // the object has to be usable whatever happened to the objects it was copied from / assigned to
           const View& v = cfg[st.s].map == 'r' ? c.real : c.decoy;
+          const int r = cfg[st.s].rev ? 1 : 0;
           for (int dir = 0; dir < 2; ++dir) {
-            std::string f2 = checkedCall(*slot[st.s], v, dir == 0, true, 'l', 1, cfg[st.s].B, [](int, long) { return 1L; },
+            std::string f2 = checkedCall(*slot[st.s], v, meOf[r], userComm[r], dir == 0, true, 'l', 1, cfg[st.s].B, [](int, long) { return 1L; },
                                          "probe of slot " + std::to_string(st.s) + (dir == 0 ? " forward" : " backward"), nullptr, nontrivial);
             if (fail.empty()) fail = f2;
           }
@@ -543,7 +551,8 @@ static Result runCase(const Case& c, const Family& fam) {
           char d = c.dirs[ci];
           const bool fx = c.fixedCall(d);
           if (ci) out += " | ";
-          std::string f2 = checkedCall(*slot[st.s], c.real, Case::forwardCall(d), fx, c.ty, c.B, cfg[st.s].B,
+          const int r = cfg[st.s].rev ? 1 : 0;
+          std::string f2 = checkedCall(*slot[st.s], c.real, meOf[r], userComm[r], Case::forwardCall(d), fx, c.ty, c.B, cfg[st.s].B,
                                        [&](int p, long i) { return c.sizeOf(fx, p, i); },
                                        "call " + std::to_string(ci) + " dir " + std::string(1, d) + " on slot " + std::to_string(st.s), &out, nontrivial);
           if (fail.empty()) fail = f2;
@@ -555,8 +564,10 @@ static Result runCase(const Case& c, const Family& fam) {
     }
     for (auto& s : slot) s.reset();  // collective MPI_Comm_free, slot order
     ifaces.clear();                  // an Interface frees its InterfaceInformation objects itself
-    for (auto& kv : realMap) { kv.second.first.free(); kv.second.second.free(); }
-    for (auto& kv : decoyMap) { kv.second.first.free(); kv.second.second.free(); }
+    for (int r = 0; r < 2; ++r) {
+      for (auto& kv : realMap[r]) { kv.second.first.free(); kv.second.second.free(); }
+      for (auto& kv : decoyMap[r]) { kv.second.first.free(); kv.second.second.free(); }
+    }
   }
   res.impl = out;
   res.oracle = !fail.empty() ? "FAIL " + fail : (nontrivial ? "ok" : "ok trivial");
@@ -578,7 +589,8 @@ static void caseStats(const Case& c) {
       if (st.op == 'N') {
         stat(std::string("constructor_") + std::string(1, st.kind) + (c.K ? "_cfg" : ""));
         long b = (st.kind == 'M' || st.kind == 'I') ? c.defaultBuffer() : st.b;
-        if (st.map == 'r') stat(b < c.B ? "objects_built_with_buffer_lt_B" : b == c.B ? "objects_built_with_buffer_eq_B" : "objects_built_with_buffer_gt_B");
+        if (st.map == 'r' || st.map == 'x') stat(b < c.B ? "objects_built_with_buffer_lt_B" : b == c.B ? "objects_built_with_buffer_eq_B" : "objects_built_with_buffer_gt_B");
+        if (st.map == 'x' || st.map == 'y') stat("objects_built_on_the_reversed_communicator");
       }
       if (st.op == 'A') {
         if (st.s == st.t) stat("assign_self");
@@ -586,10 +598,12 @@ static void caseStats(const Case& c) {
         else if (sl[st.s].B > sl[st.t].B) stat("assign_over_bigger_buffer");
         else stat("assign_over_equal_buffer");
         if (st.s != st.t && sl[st.s].map != sl[st.t].map) stat("assign_changes_map");
+        if (st.s != st.t && sl[st.s].rev != sl[st.t].rev) stat("assign_changes_process_group");
       }
       if (st.op == 'X') {
         if (st.s != 0) stat("calls_on_slot_other_than_0");
         if (sl[st.s].B > c.B) stat("calls_on_object_with_buffer_gt_B");
+        if (sl[st.s].rev) stat("calls_on_reversed_communicator");
       }
       lifeStep(c, sl, st, done, why);
     }
@@ -699,11 +713,13 @@ static std::string genLife(Rng& rng, long B, const std::string& dirs, long K) {
   auto fit = [&](int s) { return sl[s].alive && sl[s].map == 'r' && sl[s].B >= B; };
   auto emitN = [&](int s, char map, long b /* 0: default constructor */) {
     bool iface = rng.coin(2, 5);
+    sl[s].rev = rng.coin(1, 3);
+    if (sl[s].rev) map = map == 'r' ? 'x' : 'y';
     std::string t = "N" + std::to_string(s);
     if (b == 0) { t += iface ? "I" : "M"; t += map; sl[s].B = defB; }
     else { t += iface ? "i" : "m"; t += map; t += std::to_string(b); sl[s].B = b; }
     sl[s].alive = true;
-    sl[s].map = map;
+    sl[s].map = (map == 'r' || map == 'x') ? 'r' : 'd';
     prog.push_back(t);
   };
   int steps = 2 + (int)rng.below(8);
@@ -770,8 +786,8 @@ static std::string gen(Rng& rng, long, const Args& a) {
   static const std::vector<long> Bs = {1, 1, 2, 2, 3, 3, 4, 5, 7, 8, 16};
   long B = rng.coin(1, 20) ? 32768 : rng.pick(Bs);
   // the other compile-time configuration: the default constructors take DUNE_PARALLEL_MAX_COMMUNICATION_BUFFER_SIZE
-  const long K = rng.coin(1, 12) ? c06::cfgFamilyMacroValue : 0;
-  if (K) B = 1 + (long)rng.below(K);
+  const long K = rng.coin(1, 9) ? c06::cfgFamilyMacroValue : 0;
+  if (K) B = rng.coin() ? K : 1 + (long)rng.below(K);
   bool big = B > 1000;
   bool fixed = rng.coin(2, 5);
   static const std::vector<std::string> dirsS = {"f", "f", "f", "f", "b", "b", "b", "b", "fb", "bf", "ff", "bb",
@@ -872,6 +888,7 @@ int main(int argc, char** argv) {
   MPI_Init(&argc, &argv);
   MPI_Comm_rank(MPI_COMM_WORLD, &g_rank);
   MPI_Comm_size(MPI_COMM_WORLD, &g_size);
+  MPI_Comm_split(MPI_COMM_WORLD, 0, g_size - 1 - g_rank, &g_revComm);
   std::cout << std::unitbuf;
   // a hang is a violation of this property: keep the per-case alarm short unless the caller chose one
   std::vector<char*> av(argv, argv + argc);
@@ -884,6 +901,7 @@ int main(int argc, char** argv) {
   }
   if (!has) { av.push_back(k); av.push_back(v); }
   int rc = dv::runMpi((int)av.size(), av.data(), gen, exec);
+  MPI_Comm_free(&g_revComm);
   MPI_Finalize();
   return rc;
 }
